@@ -788,6 +788,18 @@ fn shape(case: &ParCase) -> String {
     )
 }
 
+/// `gv::child::run`, robust against the executable being momentarily absent (the shared target
+/// directory is re-linked by concurrent cargo builds of other properties).
+fn run_child(input: &[u8], timeout: Duration) -> gv::child::Exit {
+    for _ in 0..60 {
+        match gv::catch(|| gv::child::run(&["--child"], input, timeout)) {
+            Ok(e) => return e,
+            Err(_) => std::thread::sleep(Duration::from_millis(500)),
+        }
+    }
+    gv::child::run(&["--child"], input, timeout)
+}
+
 /// What one child run of a `par` case showed.
 struct ParRun {
     payload: String,
@@ -799,7 +811,7 @@ struct ParRun {
 
 fn one_par_run(case: &ParCase, cj: &Value, timeout: Duration) -> ParRun {
     let input = serde_json::to_vec(cj).unwrap();
-    let ex = gv::child::run(&["--child"], &input, timeout);
+    let ex = run_child(&input, timeout);
     let flags = format!(
         "{}{}{}",
         if case.collector { "+collector" } else { "" },
@@ -1105,14 +1117,14 @@ fn run_locks(out: &mut Out, nth: usize, ops: &[LOp], iters: u64, timeout: Durati
     // orders (read off the code, independent of the Lean model) are therefore run up to 6 times
     // until a hang is seen; all others once.  What is reported is what was observed.
     let attempts = if may_hang(ops) { 6 } else { 1 };
-    let mut ex = gv::child::run(&["--child"], &serde_json::to_vec(&cj).unwrap(), timeout);
+    let mut ex = run_child(&serde_json::to_vec(&cj).unwrap(), timeout);
     for _ in 1..attempts {
         let no_hang = matches!(&ex, gv::child::Exit::Ok(o) if !o.contains("\"hung\":true"));
         if !no_hang {
             break;
         }
         out.count("locks-rerun-no-hang-yet");
-        ex = gv::child::run(&["--child"], &serde_json::to_vec(&cj).unwrap(), timeout);
+        ex = run_child(&serde_json::to_vec(&cj).unwrap(), timeout);
     }
     let hung = |e: &gv::child::Exit| match e {
         gv::child::Exit::Ok(o) => o.contains("\"hung\":true"),
